@@ -480,7 +480,7 @@ void HttpRequest::read()
 		_fragment = _res.substring(h + 1);
 	}
 	int q = _res.indexOf('?');
-	if (q > 0)
+	if (q > 0 && q < pathend) // a '?' after the '#' belongs to the fragment
 	{
 		_querystring = _res.substring(q + 1, h > 0 ? h : pathend);
 		pathend = q;
